@@ -120,7 +120,8 @@ TABLE_TITLES = {
 
 
 def indep_table(lines, title):
-    """data rows (token lists) of the table whose banner line contains `title`: from the banner to the first blank line after the rows begin"""
+    """data rows (token lists) of the table whose banner line contains `title`: every row line from the banner to the next banner / the next line of text
+    (a blank line between two rows does not end the table the report prints: the rows after it are still rows of that table)"""
     idx = [i for i, ln in enumerate(lines) if title in ln]
     if not idx:
         return None
@@ -131,9 +132,7 @@ def indep_table(lines, title):
         if is_row:
             started = True
             rows.append(toks)
-        elif started and not ln.strip():
-            break
-        elif started and ln.strip().startswith('*'):
+        elif started and ln.strip():
             break
     return rows
 
